@@ -38,6 +38,7 @@ def main() -> int:
             rc = mod.replay(ctx, a.replay)
             ctx.cleanup()
             return rc
+        ctx.clear_replays()
         mod.run(ctx)
         return ctx.finish()
     except common.Timeout:
